@@ -225,6 +225,15 @@ def buffer_rules(ctx, rule_c, rule_d, rule_f):
             (t.get("rcn") or "").endswith("::search") for _, t in b.calls())
         evs = [(bi, t, m) for (bi, t, rk, m) in U.receiver_events(ctx, b) if rk == ("arg", 2)]
         content = [(bi, t, m) for bi, t, m in evs if m not in NON_CONTENT]
+        # replacing the whole vector (`*buffer = Vec::with_capacity(n)`, mem::take / replace / swap) changes its contents too
+        sy_ = ctx.sym(b)
+        for bi, si, st in b.iter_stmts():
+            if st["k"] == "assign" and st["place"]["p"] and not b.blocks[bi]["cleanup"] and \
+                    S.strip_refs(sy_.dest(st["place"])) == ("arg", 2):
+                content.append((bi, st, "`*buffer = ..`"))
+        for bi, t in b.calls():
+            if U.callee_is(t, "mem::replace", "mem::take", "mem::swap") and any(S.strip_refs(sy_.operand(a)) == ("arg", 2) for a in t["args"]):
+                content.append((bi, t, (t.get("cn") or "").rsplit("::", 1)[-1]))
         if calls_search:
             searchers.append((root, b, evs))
             continue
